@@ -743,7 +743,25 @@ fn reward_step(w: &mut World, sc: &Scenario, rec: &mut Recorder, pos: &[String],
                 })
                 .cloned()
                 .collect();
-            let p = if !in_range.is_empty() && w.rng.gen_bool(0.8) { pick(w, &in_range) } else { pick(w, pos) };
+            // ... or, now and then, one with liquidity that the price has left, after some time without any pool activity (its
+            // rewards must stand still while the pool's accumulators run on)
+            let out_of_range: Vec<String> = pos
+                .iter()
+                .filter(|n| {
+                    let t = w.pool_tick(&pool);
+                    w.pos_range(n).map(|(l, lo, up)| l > 0 && !(lo <= t && t < up)).unwrap_or(false)
+                })
+                .cloned()
+                .collect();
+            let p = if !out_of_range.is_empty() && w.rng.gen_bool(0.25) {
+                let dt = pick(w, &[1i64, 60, 3600, 86400]);
+                rec.tick_clock(w, dt);
+                pick(w, &out_of_range)
+            } else if !in_range.is_empty() && w.rng.gen_bool(0.8) {
+                pick(w, &in_range)
+            } else {
+                pick(w, pos)
+            };
             let owner = w.positions[&p].owner.clone();
             let i = if w.rng.gen_bool(0.9) { w.rng.gen_range(0..nrew) as u8 } else { w.rng.gen_range(0..3) };
             if w.rng.gen_bool(0.7) {
@@ -881,6 +899,78 @@ fn whale_corner(w: &mut World, sc: &Scenario, rec: &mut Recorder) {
     }
 }
 
+/// Solvency under pay-out-only re-ranging (C01): several positions over the same range with the same liquidity, the price moved
+/// by an exact-out swap, then all but one of them repositioned to a far range above the price with next to no liquidity - each
+/// reposition only pays token B out.  What the old range frees must be rounded DOWN every time: one unit too much per reposition
+/// and the vault can no longer cover the position that stays.
+fn reposition_payouts(w: &mut World, sc: &Scenario, rec: &mut Recorder) {
+    let pool = sc.pool.clone();
+    let s = w.pools[&pool].spacing as i32;
+    if s >= 32768 {
+        return;
+    }
+    let t = w.pool_tick(&pool);
+    let lo = (t.div_euclid(s) - 10) * s;
+    let up = (t.div_euclid(s) + 10) * s;
+    let (lo2, up2) = (up + 20 * s, up + 30 * s);
+    if lo <= MIN_TICK + s || up2 >= MAX_TICK - s {
+        return;
+    }
+    for tt in [lo, up, lo2, up2] {
+        let start = w.ta_start(&pool, tt);
+        if !w.ta_exists(&pool, start) {
+            let dynamic = w.pools[&pool].dynamic;
+            let ix = w.ix_init_tick_array(&pool, start, dynamic);
+            rec.exec(w, &ix, true, json!("setup"));
+        }
+    }
+    let v2 = sc.v2_only;
+    let n = w.rng.gen_range(6..10);
+    // the fractional part of what one position holds in token B, L x (price - lower price) / 2^64, in units of 2^-64
+    let frac = |l: u128, p: u128| -> u128 {
+        let x = ethnum::U256::from(l) * ethnum::U256::from(p - price_of(lo));
+        (x & ethnum::U256::from(u64::MAX)).as_u128()
+    };
+    // a liquidity amount whose deposit is rounded up by next to nothing (so that the deposits leave no surplus in the vault) ...
+    let p0 = w.pool_sqrt_price(&pool);
+    let mut l = 100_000_000_000u128 + (w.rng.gen::<u64>() % 100_000_000_000) as u128;
+    for _ in 0..400 {
+        if frac(l, p0) > (u64::MAX as u128 / 100) * 95 {
+            break;
+        }
+        l += 1 + (w.rng.gen::<u64>() % 1000) as u128;
+    }
+    let mut names = vec![];
+    for _ in 0..n {
+        let (ix, info) = w.ix_open_position(&pool, "U1", lo, up, PosKind::Plain);
+        if !rec.exec(w, &ix, true, json!("payouts")).ok() {
+            return;
+        }
+        let name = info.name.clone();
+        w.positions.insert(name.clone(), info);
+        let ix = w.ix_increase(&name, "U1", l, u64::MAX, u64::MAX, v2);
+        rec.exec(w, &ix, false, json!("payouts"));
+        names.push(name);
+    }
+    // ... and a swap after which a position's holding of B has a small fractional part (so that rounding it up instead of down
+    // gives away nearly a whole unit each time)
+    let mut out = 1_000_001 + (w.rng.gen::<u64>() % 1_000_000);
+    for _ in 0..60 {
+        let mut c = w.clone();
+        let ix = c.ix_swap(&pool, "U2", out, u64::MAX, 0, false, true, v2);
+        if c.exec_raw(&ix.instruction()).ok() && frac(l, c.pool_sqrt_price(&pool)) < (u64::MAX as u128 / 100) * 10 && c.pool_sqrt_price(&pool) > price_of(lo) {
+            break;
+        }
+        out += 1 + (w.rng.gen::<u64>() % 5000);
+    }
+    let ix = w.ix_swap(&pool, "U2", out, u64::MAX, 0, false, true, v2);
+    rec.exec(w, &ix, false, json!("payouts"));
+    for name in names.iter().skip(1) {
+        let ix = w.ix_reposition(name, "U1", lo2, up2, 1000, 0, 0, u64::MAX, u64::MAX);
+        rec.exec(w, &ix, false, json!("payouts"));
+    }
+}
+
 /// Adaptive fee (C14): a deterministic walk through the reference rules.  Liquidity over a wide range; a
 /// swap that moves several tick groups (accumulator > 0); a pause inside [filter, decay) and a small swap
 /// (the reference becomes the reduced accumulator); a pause beyond the decay period (or inside the window
@@ -948,6 +1038,36 @@ fn af_decay_scenario(w: &mut World, sc: &Scenario, rec: &mut Recorder) {
     let limit = if a_to_b { boundary(g1 + 2) } else { boundary(g1 - 1) };
     let ix = w.ix_swap(&pool, "U3", big, 0, limit, true, !a_to_b, v2);
     rec.exec(w, &ix, false, json!("af"));
+    // 5. swaps that move the price by exactly the major-swap threshold (the program's own target price: smaller price x
+    //    price_of(threshold ticks) >> 64), by one unit less and by one unit more, in either direction
+    let Some(info) = crate::sdk::oracle_info(&w.bank, &w.pools[&pool].oracle) else { return };
+    let factor = ethnum::U256::from(price_of(info.constants.major_swap_threshold_ticks as i32));
+    let target_of = |smaller: u128| -> u128 { ((ethnum::U256::from(smaller) * factor) >> 64u32).as_u128() };
+    for k in 0..6 {
+        let dtk = pick(w, &[1i64, f as i64, d as i64 + 1]);
+        rec.tick_clock(w, dtk);
+        let p = w.pool_sqrt_price(&pool);
+        let off = [0i128, -1, 1][k % 3];
+        let limit = if k < 3 {
+            // b -> a: the price rises from p to exactly / just below / just above the target
+            (target_of(p) as i128 + off) as u128
+        } else {
+            // a -> b: the price falls to the smallest price whose target is (at most) p, one unit either side
+            let mut q = ((ethnum::U256::from(p) << 64u32) / factor).as_u128();
+            while target_of(q) > p {
+                q -= 1;
+            }
+            while target_of(q + 1) <= p {
+                q += 1;
+            }
+            (q as i128 + off) as u128
+        };
+        if limit <= MIN_SQRT_PRICE || limit >= MAX_SQRT_PRICE || limit <= price_of(lo + s) || limit >= price_of(up - s) {
+            continue;
+        }
+        let ix = w.ix_swap(&pool, "U2", big, 0, limit, true, k >= 3, v2);
+        rec.exec(w, &ix, false, json!("af"));
+    }
 }
 
 pub fn run(cfg: &HistCfg, rec: &mut Recorder) {
@@ -964,6 +1084,9 @@ pub fn run(cfg: &HistCfg, rec: &mut Recorder) {
         }
         if cfg.adaptive && h % 2 == 0 {
             af_decay_scenario(&mut w, &sc, rec);
+        }
+        if h % 4 == 2 {
+            reposition_payouts(&mut w, &sc, rec);
         }
         for s in 0..cfg.steps {
             random_step(&mut w, &sc, rec);
